@@ -4,9 +4,14 @@ import (
 	"database/sql"
 	"encoding/csv"
 	"fmt"
+	"github.com/akrennmair/updog"
 	"os"
 	"os/exec"
+	"path/filepath"
 	"sort"
+	"strings"
+	"sync/atomic"
+	"syscall"
 	"time"
 
 	proto "github.com/akrennmair/updog/proto/updog/v1"
@@ -73,10 +78,24 @@ func csvRowsAsMaps(rows []map[string]string) []map[string]string {
 	return out
 }
 
+var createRuns atomic.Int64
+
 func runCreate(csvPath, out string, big bool, timeout time.Duration) (string, error) {
 	args := []string{"create", "-o", out, csvPath}
 	if big {
 		args = []string{"create", "-b", "-o", out, csvPath}
+	}
+	// the command's global profiling flags are ordinary options: every few runs use one of them; what the command does
+	// with its input and output, and its exit status, must be the same
+	switch n := createRuns.Add(1); n % 4 {
+	case 1:
+		prof := filepath.Join(scratchDir, fmt.Sprintf("create-%d.cpuprofile", n))
+		args = append([]string{"--cpuprofile", prof}, args...)
+		defer os.Remove(prof)
+	case 3:
+		prof := filepath.Join(scratchDir, fmt.Sprintf("create-%d.memprofile", n))
+		args = append([]string{"--memprofile", prof}, args...)
+		defer os.Remove(prof)
 	}
 	cmd := exec.Command(updogBin, args...)
 	cmd.Env = append(os.Environ(), "TMPDIR="+scratchDir)
@@ -91,5 +110,98 @@ func runCreate(csvPath, out string, big bool, timeout time.Duration) (string, er
 		cmd.Process.Kill()
 		<-done
 		return string(outb), fmt.Errorf("timeout after %v", timeout)
+	}
+}
+
+// terminatedCreate: `updog create` reads its CSV from a FIFO; after half of the records the process gets a termination
+// signal, then the rest of the records are offered. Whatever the process does with the signal: if it reports success
+// (exit status 0) the output must hold every record of the input; if it does not, the output is absent, rejected by
+// OpenIndex, or complete. An index that opens and silently misses records is never acceptable.
+func terminatedCreate(rep *Report, prop string, big bool, sig syscall.Signal) {
+	fifo := scratch(fmt.Sprintf("create-fifo-%d.csv", rep.Evaluations))
+	out := scratch(fmt.Sprintf("create-term-%d.updog", rep.Evaluations))
+	os.Remove(fifo)
+	os.Remove(out)
+	defer os.Remove(fifo)
+	defer os.Remove(out)
+	if err := syscall.Mkfifo(fifo, 0600); err != nil {
+		rep.Note("mkfifo not available: %v", err)
+		return
+	}
+	const total = 3000
+	args := []string{"create", "-o", out, fifo}
+	if big {
+		args = []string{"create", "-b", "-o", out, fifo}
+	}
+	cmd := exec.Command(updogBin, args...)
+	cmd.Env = append(os.Environ(), "TMPDIR="+scratchDir)
+	if err := cmd.Start(); err != nil {
+		infra("start create: %v", err)
+	}
+	exited := make(chan error, 1)
+	go func() { exited <- cmd.Wait() }()
+	fed := make(chan struct{})
+	go func() {
+		defer close(fed)
+		w, err := os.OpenFile(fifo, os.O_WRONLY, 0)
+		if err != nil {
+			return
+		}
+		defer w.Close()
+		fmt.Fprintf(w, "tag,grp\n")
+		for i := 0; i < total; i++ {
+			if i == total/2 {
+				time.Sleep(400 * time.Millisecond) // let the reader consume the first half
+				cmd.Process.Signal(sig)
+				time.Sleep(150 * time.Millisecond)
+			}
+			if _, err := fmt.Fprintf(w, "row-%05d,%d\n", i, i%7); err != nil {
+				return // the reader is gone
+			}
+		}
+	}()
+	var werr error
+	select {
+	case werr = <-exited:
+	case <-time.After(40 * time.Second * watchdogScale):
+		cmd.Process.Kill()
+		werr = <-exited
+		werr = fmt.Errorf("hang: %v", werr)
+	}
+	// unblock the feeder if the reader never opened the FIFO
+	if f, err := os.OpenFile(fifo, os.O_RDONLY|syscall.O_NONBLOCK, 0); err == nil {
+		f.Close()
+	}
+	select {
+	case <-fed:
+	case <-time.After(5 * time.Second):
+	}
+	c := map[string]any{"big": big, "signal": sig.String(), "records": total, "signal_after": total / 2}
+	rep.Eval(fmt.Sprintf("terminated-create-%v-%v", big, sig), true)
+	rep.Count("terminated-create-runs")
+	if werr != nil && strings.HasPrefix(werr.Error(), "hang") {
+		rep.Violate(Violation{Kind: "fault", Signature: prop + ":create-hang", What: fmt.Sprintf("`updog create` (big=%v) did not end within the time limit after %v", big, sig), Expected: "ends", Actual: werr.Error(), Case: c})
+		return
+	}
+	if _, err := os.Stat(out); err != nil {
+		return // absent: fine
+	}
+	idx, _, err := openIdx(out, false, -1)
+	if err != nil {
+		if strings.HasPrefix(err.Error(), "panic") || strings.HasPrefix(err.Error(), "hang") {
+			rep.Violate(Violation{Kind: "fault", Signature: prop + ":partial-open-" + strings.SplitN(err.Error(), ":", 2)[0], What: fmt.Sprintf("opening the output of a terminated `updog create` (big=%v, %v)", big, sig), Expected: "error or index", Actual: err.Error(), Case: c})
+		}
+		return // rejected: fine
+	}
+	defer idx.Close()
+	n := int(updog.VerifIndexNextRowID(idx))
+	missing := 0
+	for _, i := range []int{0, 1, total/2 - 1, total / 2, total/2 + 1, total - 2, total - 1} {
+		if got := safeExecute(idx, &updog.Query{Expr: &updog.ExprEqual{Column: "tag", Value: fmt.Sprintf("row-%05d", i)}}); got != "ok 1" {
+			missing++
+		}
+	}
+	if n != total || missing > 0 {
+		rep.Violate(Violation{Kind: "fault", Signature: prop + ":partial-index-accepted", What: fmt.Sprintf("`updog create` (big=%v) got %v after %d of %d records; it ended with %v and left an output that opens as an index of %d rows (%d of 7 probed records missing)", big, sig, total/2, total, werr, n, missing), Expected: fmt.Sprintf("absent, rejected, or all %d records", total), Actual: fmt.Sprintf("%d rows", n), Case: c})
 	}
 }
